@@ -32,7 +32,8 @@ RULE = ("one run = one generated FSM class (1-4 states, 1-3 events; specific / '
         "from another block, condition flags toggled in between); run indices below 4000 are "
         "restricted to <=2 states x <=2 events so the small space is covered densely; "
         "three in eight machines are persistent blocks of a circuit with storage (sync_state "
-        "on/off); non-trivial = at least one accepted transition after initialisation; distinct = hash of "
+        "on/off), one in six blocks is an instance of a subclass that adds nothing (found F27); "
+        "non-trivial = at least one accepted transition after initialisation; distinct = hash of "
         "(class shape, per event: kind, accepted/rejected/error, action log shape)")
 REACH_EXPECTED = ['chained', 'any_state_rule_used', 'specific_beats_any', 'forbidden_rule',
                   'cond_false', 'notrans', 'goto_from_block', 'unknown_event', 'multi_chain_error',
@@ -82,7 +83,11 @@ def gen(rng, tier, index=0):
     # a quarter of the machines are persistent blocks of a circuit with storage (the state is
     # saved after every event): table, actions, results and event data must not change
     persist = rng.choice([None, None, None, None, None, 'sync', 'sync', 'nosync'])
-    return {'knobs': knobs, 'spec': spec, 'inst': inst, 'ops': ops, 'persist': persist}
+    # a sixth of the blocks are instances of a subclass that adds nothing: the machine (table,
+    # timers and the cond_/enter_/exit_ methods of the parent class) must be inherited
+    subclass = rng.random() < 0.17
+    return {'knobs': knobs, 'spec': spec, 'inst': inst, 'ops': ops, 'persist': persist,
+            'subclass': subclass}
 
 
 class Sender(edzed.SBlock):
@@ -111,6 +116,22 @@ def execute(plan, trace=False):
 
         recorder = fsmlib.Recorder('rec', x_sink=rec)
         cls = fsmlib.build_class(spec, sink)
+        if plan.get('subclass'):
+            parent = cls
+            cls = type(cls.__name__ + 'Sub', (cls,), {'__doc__': 'adds nothing'})
+            run.fired('reach:trivial_subclass')
+            # diagnosis only (private tables): did the subclass lose callbacks of its parent?
+            pm, cm = getattr(parent, '_ct_methods', None), getattr(cls, '_ct_methods', None)
+            if isinstance(pm, dict) and isinstance(cm, dict) and any(
+                    set(pm.get(k, {})) - set(cm.get(k, {})) for k in pm):
+                orig_violate = run.violate
+
+                def violate(sig, msg):
+                    orig_violate(sig + '/subclass-lost-inherited-methods',
+                                 msg + ' [the block is an instance of a subclass that adds '
+                                 'nothing; the cond_/enter_/exit_ methods of the parent class '
+                                 'are not in its tables]')
+                run.violate = violate
         kw = {}
         for s in model.states:
             kw[f"on_enter_{s}"] = edzed.Event(recorder, 'enter')
